@@ -2,6 +2,7 @@ import HC.Proofs.Layout
 import HC.Proofs.Bitfield
 import HC.Proofs.OplogBytes
 import HC.Proofs.BitfieldPages
+import HC.Props.C02
 /-!
 # C06 — storage files are readable and writable per the JavaScript on-disk layout
 
@@ -27,7 +28,13 @@ current header bit); `HC.Oplog.openLog` is the reader (`Oplog::open`).
 * `bitfield_pages`   : the bitfield store is read as 4096-byte little-endian pages: bit `i` is bit `i % 8` of
   byte `i / 8`, for every index.
 
-The tree/data stores and the hashes of the five-step interoperability
+* `node_slot`, `node_slot_inv` : the tree store holds node `i` in the 40 bytes at `40·i` as 8-byte little-endian
+  size ‖ 32-byte hash; a slot is the encoding of the node it decodes to;
+* `history_stores`   : on the model of the whole crate, after any history of calls and reopen steps: every
+  reference node below the length is found at its slot (or still unflushed in memory), and every held block's
+  bytes sit in the data store at the sum of the sizes of the blocks before it (the JavaScript data layout).
+
+The hashes of the five-step interoperability
 scenario are covered by the run: every dump of every history is read back by this reader in Lean and
 compared with what the crate's API reports; the scenario's SHA-256 hashes (computed by the harness on
 the real files and by Lean on the model's files) are compared with the constants certified against
@@ -91,5 +98,32 @@ example (hdr : Header) : (⟨none, some (true, hdr), []⟩ : Rotation.Log Header
 theorem bitfield_pages (f : File) (i : Nat) :
     (Bitfield.ofFile f).get i = (decide (i < (f.size - f.size % 4) * 8) && decide ((f.byte (i / 8)).toNat / 2 ^ (i % 8) % 2 = 1)) :=
   BitfieldPages.ofFile_get f i
+
+/-- a tree-store slot: 8-byte little-endian size, then the 32-byte hash -/
+theorem node_slot (n : Codec.Node) (h : n.length < 2 ^ 64) : HC.nodeOfBytes n.index (HC.nodeBytes n) = n :=
+  TreeStore.nodeOfBytes_nodeBytes n h
+
+theorem node_slot_inv (i : Nat) (bs : Bytes) (h : bs.length = 40) : HC.nodeBytes (HC.nodeOfBytes i bs) = bs :=
+  TreeStore.nodeBytes_nodeOfBytes i bs h
+
+section Model
+open HC.LogSpec HC.LiveRefine HC.TreeStore HC.Persist HC.C01 HC.Offsets
+
+/-- the tree and data stores along every history of a freshly created writer core -/
+theorem history_stores (C : Crypto) (hC : HashWF C) (hS : SignWF C) (hTw : TreeWF C) (pk sk : Bytes)
+    (hpk : pk.length = 32) (hsk : sk.length = 32) (steps : List HStep) (hok : AllOK {} steps) :
+    ∃ c j, Core.openCore C (some (pk, some sk)) {} = .ok (c, j) ∧
+      (∀ dd o, (o + 1) * 2 ^ dd ≤ (runA' {} steps).1.blocks.size →
+          (runC' C (c, ({} : Disk).applyAll j) steps).1.1.tree.node? (runC' C (c, ({} : Disk).applyAll j) steps).1.2.tree (Flat.index dd o)
+            = some (RefTree.nodeAt C (runA' {} steps).1.blocks dd o))
+      ∧ (∀ i, (runA' {} steps).1.held i = true → ∀ k, k < sz (runA' {} steps).1.blocks i →
+          psum (runA' {} steps).1.blocks i + k < (runC' C (c, ({} : Disk).applyAll j) steps).1.2.data.size
+            ∧ (runC' C (c, ({} : Disk).applyAll j) steps).1.2.data.byte (psum (runA' {} steps).1.blocks i + k)
+                = ((runA' {} steps).1.blocks.getD i []).getD k 0) := by
+  obtain ⟨c, j, h1, h2, h3⟩ := init_both C pk sk hpk hsk
+  obtain ⟨hrep, _⟩ := C02.history_invariants_reopen C hC hS hTw steps c _ {} _ {} [] h2 h3 hok
+  exact ⟨c, j, h1, hrep.nodes, hrep.data⟩
+
+end Model
 
 end HC.C06
